@@ -90,6 +90,12 @@ func verifEvent(kind string, t *Tunnel, kv ...any) {
 		// must not add unsynchronised reads of its own
 		m["tunnel"] = fmt.Sprintf("%p", t)
 		m["rdgid"] = t.RDGId
+		if kind == "tunnel.new" && t.User != nil {
+			// the tunnel was created a moment ago by this goroutine and is not
+			// shared yet: the identity the HTTP layer handed over
+			m["user"] = t.User.UserName()
+			m["authenticated"] = t.User.Authenticated()
+		}
 	}
 	for i := 0; i+1 < len(kv); i += 2 {
 		m[fmt.Sprint(kv[i])] = kv[i+1]
